@@ -601,7 +601,7 @@ func (t *ZeroAllocTokenizer) processBlockTag(content string) {
 
 	case "for":
 		// Process for loop with iterator(s) and collection
-		inPos := strings.Index(strings.ToLower(blockContent), " in ")
+		inPos := indexASCIIFold(blockContent, " in ")
 		if inPos != -1 {
 			iterators := strings.TrimSpace(blockContent[:inPos])
 			collection := strings.TrimSpace(blockContent[inPos+4:])
@@ -695,7 +695,7 @@ func (t *ZeroAllocTokenizer) processBlockTag(content string) {
 
 	case "include":
 		// Handle include with template path and optional context
-		withPos := strings.Index(strings.ToLower(blockContent), " with ")
+		withPos := indexASCIIFold(blockContent, " with ")
 		if withPos != -1 {
 			templatePath := strings.TrimSpace(blockContent[:withPos])
 			contextExpr := strings.TrimSpace(blockContent[withPos+6:])
@@ -729,7 +729,7 @@ func (t *ZeroAllocTokenizer) processBlockTag(content string) {
 	case "from":
 		// Handle from tag which has a special format:
 		// {% from "template.twig" import macro1, macro2 as alias %}
-		importPos := strings.Index(strings.ToLower(blockContent), " import ")
+		importPos := indexASCIIFold(blockContent, " import ")
 		if importPos != -1 {
 			// Extract template path and macros list
 			templatePath := strings.TrimSpace(blockContent[:importPos])
@@ -747,7 +747,7 @@ func (t *ZeroAllocTokenizer) processBlockTag(content string) {
 				macro = strings.TrimSpace(macro)
 
 				// Check for "as" alias
-				asPos := strings.Index(strings.ToLower(macro), " as ")
+				asPos := indexASCIIFold(macro, " as ")
 				if asPos != -1 {
 					// Extract macro name and alias
 					macroName := strings.TrimSpace(macro[:asPos])
@@ -782,7 +782,7 @@ func (t *ZeroAllocTokenizer) processBlockTag(content string) {
 	case "import":
 		// Handle import tag which allows importing entire templates
 		// {% import "template.twig" as alias %}
-		asPos := strings.Index(strings.ToLower(blockContent), " as ")
+		asPos := indexASCIIFold(blockContent, " as ")
 		if asPos != -1 {
 			// Extract template path and alias
 			templatePath := strings.TrimSpace(blockContent[:asPos])
@@ -826,6 +826,30 @@ func (t *ZeroAllocTokenizer) tokenizeTemplatePath(path string) {
 		// Otherwise tokenize as expression
 		t.TokenizeExpression(path)
 	}
+}
+
+// indexASCIIFold returns the index of the first occurrence of the lower-case
+// ASCII keyword in s, ignoring the case of ASCII letters. Unlike
+// strings.Index(strings.ToLower(s), keyword) the result is an offset into s
+// itself: ToLower changes the byte length of invalid UTF-8 and of some letters,
+// so its offsets do not fit the original string.
+func indexASCIIFold(s, keyword string) int {
+	for i := 0; i+len(keyword) <= len(s); i++ {
+		j := 0
+		for ; j < len(keyword); j++ {
+			c := s[i+j]
+			if c >= 'A' && c <= 'Z' {
+				c += 'a' - 'A'
+			}
+			if c != keyword[j] {
+				break
+			}
+		}
+		if j == len(keyword) {
+			return i
+		}
+	}
+	return -1
 }
 
 // isSimpleIdentifier reports whether s is a single variable name, the only
